@@ -52,6 +52,91 @@ def poison_value(env):
     return None
 
 
+# ------------------------------------------------------------------ faults
+
+class Interrupter:
+    """Raises KeyboardInterrupt (Ctrl-C) at the k-th call event - Python or
+    C function, i.e. also between two numpy calls - that happens inside
+    mininec code while the context is active."""
+
+    def __init__(self, k):
+        import mininec
+        import os
+        self.k = k
+        self.n = 0
+        self.fired = False
+        self.prefix = os.path.dirname(os.path.abspath(mininec.__file__))
+
+    def prof(self, frame, event, arg):
+        if frame.f_code.co_filename.startswith(self.prefix):
+            self.n += 1
+            if self.n == self.k:
+                self.fired = True
+                raise KeyboardInterrupt('simulated interrupt at call event %d' % self.k)
+
+    def __enter__(self):
+        sys.setprofile(self.prof)
+        return self
+
+    def __exit__(self, *exc):
+        sys.setprofile(None)
+        return False
+
+
+def interrupted(fn, k):
+    """Run fn() and interrupt it at call event k.  True if it was
+    interrupted, False if it completed before reaching event k."""
+    it = Interrupter(k)
+    try:
+        with it:
+            fn()
+    except KeyboardInterrupt:
+        if it.fired:
+            S.fired('interrupt_fired')
+            return True
+        raise
+    S.fired('interrupt_not_reached')
+    return False
+
+
+def op_fault(op):
+    if op and isinstance(op[-1], dict):
+        return op[-1], list(op[:-1])
+    return None, list(op)
+
+
+BAD_NEAR = [
+    lambda m: m.compute_near_field([0, 0], [1, 1], [1, 1]),                   # planar vectors
+    lambda m: m.compute_near_field([1, 1, 1], [0, 1, 1], [2, 1, 1]),          # zero increment
+    lambda m: m.compute_near_field([1, 1, 1], [1, 1, 1], [1, -2, 1]),         # negative count
+    lambda m: m.compute_near_field([1, 1, 1], [1, 1, 1], [0, 0, 0]),          # no points
+    lambda m: m.compute_near_field(['a', 1, 1], [1, 1, 1], [1, 1, 1]),        # not a number
+    lambda m: m.compute_near_field([1, 1, 1], [1, 1, 1], [1, 1, 1], pwr='x'),
+    lambda m: m.compute_near_field([1, 1, 1], [1, 1], [1, 1, 1]),             # ragged
+]
+
+
+def _bad_far(kind):
+    def run(m):
+        import mininec.mininec as mm
+        if kind == 0:
+            m.compute_far_field(None, mm.Angle(0, 10, 2))
+        elif kind == 1:
+            m.compute_far_field(mm.Angle(0, 10, 2), None, pwr=50.0, dist=10.0)
+        elif kind == 2:
+            m.compute_far_field(mm.Angle(0, 10, 0), mm.Angle(0, 10, 0))
+        elif kind == 3:
+            m.compute_far_field(mm.Angle(0, 10, 2), mm.Angle(0, 10, 2), pwr='x')
+        elif kind == 4:
+            m.compute_far_field(mm.Angle(0, 10, 2), mm.Angle(0, 10, 2), dist='far')
+        else:
+            m.compute_far_field(mm.Angle(0, 10, -1), mm.Angle(0, 10, 3), pwr=1.0)
+    return run
+
+
+BAD_FAR = [_bad_far(i) for i in range(6)]
+
+
 # ----------------------------------------------------------------- API level
 
 def build_model(argv, f):
@@ -364,8 +449,41 @@ class ApiRuntime:
         self.ensure()
         if self.dead is not None:
             return False, None, {'dead': self.dead}
+        fault, op = op_fault(op)
         kind = op[0]
         m, st, t = self.m, self.st, self.task
+        if kind in ('NEAR_BAD', 'FAR_BAD'):
+            # a malformed request: raises somewhere inside the program.  Its
+            # own outcome is not judged; the caller catches the exception and
+            # goes on, and nothing later may depend on it.  The section it
+            # touched is not observed until a well-formed request replaced it.
+            if not st.computed:
+                return False, None, {'skipped': 'precondition'}
+            self.poison()
+            fn = (BAD_NEAR if kind == 'NEAR_BAD' else BAD_FAR)[op[1] % (len(BAD_NEAR) if kind == 'NEAR_BAD' else len(BAD_FAR))]
+            try:
+                fn(m)
+                S.fired('malformed_request_accepted')
+            except Exception:
+                S.fired('malformed_request_raised')
+            if kind == 'NEAR_BAD':
+                st.near = None
+            else:
+                st.far = None
+            return True, None, {'premature': True}
+        if fault and fault.get('interrupt') and kind in ('SET_F', 'COMPUTE', 'FAR', 'NEAR') and st.can(op):
+            # Ctrl-C at a seeded point inside the operation; the caller then
+            # issues the same operation again (below, without fault)
+            self.poison()
+            k = int(fault['interrupt'])
+            if kind == 'SET_F':
+                interrupted(lambda: setattr(m, 'f', t['pool'][op[1]]), k)
+            elif kind == 'COMPUTE':
+                interrupted(lambda: do_compute(m, stepwise=(len(op) > 1 and op[1] == 'steps')), k)
+            elif kind == 'FAR':
+                interrupted(lambda: do_far(m, t['fars'][op[1]]), k)
+            else:
+                interrupted(lambda: do_near(m, t['nears'][op[1]]), k)
         if not self.st.can(op):
             if kind in ('FAR', 'NEAR') and len(op) > 2 and 'x' in op[2]:
                 # a premature field request (before the first compute, or
@@ -533,7 +651,7 @@ def out_paths(argv):
     return r
 
 
-def run_main(argv, disk, torn=None):
+def run_main(argv, disk, torn=None, interrupt=None):
     """One invocation of the real main().  Returns the observation."""
     import mininec.mininec as mm
     if torn:
@@ -543,7 +661,14 @@ def run_main(argv, disk, torn=None):
     outcome = None
     with S.Capture() as cap:
         try:
-            rc = mm.main(list(argv), f_err=err)
+            if interrupt:
+                box = []
+                hit = interrupted(lambda: box.append(mm.main(list(argv), f_err=err)), int(interrupt))
+                rc = box[0] if box else None
+                if hit:
+                    raise S.DiskFault('interrupted')
+            else:
+                rc = mm.main(list(argv), f_err=err)
             outcome = 'ok' if rc is None else 'rc:%s' % rc
         except SystemExit as e:
             outcome = 'exit:%s' % e.code
@@ -706,7 +831,8 @@ def run_history(plan, start=0, disk_files=None, positions=None, apistates=None):
         else:
             disk = se.disk
             if kind == 'RUN':
-                torn = op[2]['torn'] if len(op) > 2 and op[2] else None
+                torn = op[2].get('torn') if len(op) > 2 and op[2] else None
+                intr = op[2].get('interrupt') if len(op) > 2 and op[2] else None
                 key = tuple(op[1])
                 argv_count[key] = argv_count.get(key, 0) + 1
                 if argv_count[key] == 3:
@@ -720,9 +846,9 @@ def run_history(plan, start=0, disk_files=None, positions=None, apistates=None):
                     probes['history_contains_raise'] = probes.get('history_contains_raise', 0) + 1
                 if rts and ran_model_code:
                     pass
-                r = run_main(op[1], disk, torn)
+                r = run_main(op[1], disk, torn, intr)
                 rec['sections'] = r
-                rec['torn'] = bool(torn)
+                rec['torn'] = bool(torn) or r['outcome'] == 'diskfault'
                 rec['fresh'] = not ran_model_code
                 if ran_model_code:
                     S.fired('prior_run_ok' if 'ok' in hist_outcomes else 'prior_activity')
